@@ -10,7 +10,7 @@ PATCH="$OUT/mutant-$L.diff"; META="$OUT/meta-$L.json"
 S=/tmp/vm-$$; rm -rf "$S"; mkdir -p "$S"
 rsync -a --exclude .git /repo/ "$S/casket/"
 cd "$S/casket"
-place=$(python3 -c "import json;print(json.load(open('$META'))['demo'].get('place_at',''))" 2>/dev/null)
+place=$(python3 -c "import json;print(json.load(open('$META'))['demo'].get('place_at','').split(' ')[0].replace('<repo root>/',''))" 2>/dev/null)
 cmd=$(python3 -c "import json;print(json.load(open('$META'))['demo'].get('command',''))" 2>/dev/null)
 demo=$(ls "$OUT"/demo_${l}* "$OUT"/demo-${L}* "$OUT"/demo_${L}* 2>/dev/null | head -1)
 echo "   place_at=$place"; echo "   command=$cmd"; echo "   demo=$demo"
